@@ -153,6 +153,8 @@ where R: LLLRing, for<'x> &'x R: LLLRingOps<R> {
         let m = self.data.nrows();
 
         while self.data.step < m { 
+            #[cfg(yui_verif)]
+            crate::verif::emit(|| crate::verif::Event::Step { site: "lll" });
             self.iterate()
         }
     }
@@ -199,6 +201,8 @@ where R: LLLRing, for<'x> &'x R: LLLRingOps<R> {
         let m = self.data.nrows();
 
         while self.data.step < m { 
+            #[cfg(yui_verif)]
+            crate::verif::emit(|| crate::verif::Event::Step { site: "lll_hnf" });
             self.iterate();
         }
     }
